@@ -92,6 +92,7 @@ class Harness(object):
         self.gm = sys.modules['athlib.wma.agegrader']
         mods = [m for n, m in sys.modules.items() if m is not None and (n == 'athlib' or n.startswith('athlib.'))]
         self.locks = sched.instrument_locks(mods)
+        ctx.info['modules_with_threading_proxy'] = sched.proxy_threading(mods)
         ctx.info['instrumented_locks'] = [l._name for l in self.locks]
         import jsonschema
         self.js = jsonschema
